@@ -31,12 +31,23 @@ package atree
 //@ functype TypeInfoDecoder(dec) (t, err)
 //@   modifies alloc
 
-//@ func DecodeSlab@safety  serves C19
+//@ func DecodeSlab@safety  serves C07 C19
 //@   option assume-nonnil-params true
+//@   # the kind bits of the head select the decoder, which gets the whole register and the register's identifier (C07: self-describing)
+//@   before[C07] newArrayDataSlabFromData: (data[1] / 8) % 4 == 0 && data[1] % 8 == 0 && arg_decodeStorable == decodeStorable && arg_id == id && arg_data == data && arg_decMode == decMode && arg_decodeTypeInfo == decodeTypeInfo
+//@   before[C07] newArrayMetaDataSlabFromData: (data[1] / 8) % 4 == 0 && data[1] % 8 == 1 && arg_id == id && arg_data == data && arg_decMode == decMode && arg_decodeTypeInfo == decodeTypeInfo
+//@   before[C07] newMapDataSlabFromData: (data[1] / 8) % 4 == 1 && (data[1] % 8 == 0 || data[1] % 8 == 3) && arg_decodeStorable == decodeStorable && arg_id == id && arg_data == data && arg_decMode == decMode && arg_decodeTypeInfo == decodeTypeInfo
+//@   before[C07] newMapMetaDataSlabFromData: (data[1] / 8) % 4 == 1 && data[1] % 8 == 1 && arg_id == id && arg_data == data && arg_decMode == decMode && arg_decodeTypeInfo == decodeTypeInfo
+//@   before[C07] StorableDecoder: (data[1] / 8) % 4 == 3 && arg_id == id
 //@   modifies heap
 
-//@ func newArrayDataSlabFromData  serves C19
+//@ func newArrayDataSlabFromData  serves C07 C19
 //@   option assume-nonnil-params true
+//@   # the version-specific decoder gets the identifier, the two head bytes and everything after them (C07: self-describing)
+//@   before[C07] newArrayDataSlabFromDataV0: arg_id == id && arg_h[0] == old(data)[0] && arg_h[1] == old(data)[1] && old(data)[0] / 16 == 0 && (old(data)[1] / 8) % 4 == 0 && old(data)[1] % 8 == 0 &&
+//@        len(arg_data) == len(old(data)) - 2 && (forall k :: 0 <= k && k < len(arg_data) ==> arg_data[k] == old(data)[k + 2]) && arg_decMode == decMode && arg_decodeTypeInfo == decodeTypeInfo && arg_decodeStorable == decodeStorable
+//@   before[C07] newArrayDataSlabFromDataV1: arg_id == id && arg_h[0] == old(data)[0] && arg_h[1] == old(data)[1] && old(data)[0] / 16 == 1 && (old(data)[1] / 8) % 4 == 0 && old(data)[1] % 8 == 0 &&
+//@        len(arg_data) == len(old(data)) - 2 && (forall k :: 0 <= k && k < len(arg_data) ==> arg_data[k] == old(data)[k + 2]) && arg_decMode == decMode && arg_decodeTypeInfo == decodeTypeInfo && arg_decodeStorable == decodeStorable
 //@   modifies heap
 
 //@ func newArrayDataSlabFromDataV0  serves C19
@@ -51,16 +62,26 @@ package atree
 //@   option assume-nonnil-params true
 //@   modifies heap
 
-//@ func newArrayMetaDataSlabFromData  serves C19
+//@ func newArrayMetaDataSlabFromData  serves C07 C19
 //@   option assume-nonnil-params true
+//@   # the version-specific decoder gets the identifier, the two head bytes and everything after them (C07: self-describing)
+//@   before[C07] newArrayMetaDataSlabFromDataV0: arg_id == id && arg_h[0] == old(data)[0] && arg_h[1] == old(data)[1] && old(data)[0] / 16 == 0 && (old(data)[1] / 8) % 4 == 0 && old(data)[1] % 8 == 1 &&
+//@        len(arg_data) == len(old(data)) - 2 && (forall k :: 0 <= k && k < len(arg_data) ==> arg_data[k] == old(data)[k + 2]) && arg_decMode == decMode && arg_decodeTypeInfo == decodeTypeInfo
+//@   before[C07] newArrayMetaDataSlabFromDataV1: arg_id == id && arg_h[0] == old(data)[0] && arg_h[1] == old(data)[1] && old(data)[0] / 16 == 1 && (old(data)[1] / 8) % 4 == 0 && old(data)[1] % 8 == 1 &&
+//@        len(arg_data) == len(old(data)) - 2 && (forall k :: 0 <= k && k < len(arg_data) ==> arg_data[k] == old(data)[k + 2]) && arg_decMode == decMode && arg_decodeTypeInfo == decodeTypeInfo
 //@   modifies heap
 
 //@ func newArrayMetaDataSlabFromDataV0  serves C19
 //@   option assume-nonnil-params true
 //@   modifies heap
 
-//@ func newMapDataSlabFromData  serves C19
+//@ func newMapDataSlabFromData  serves C07 C19
 //@   option assume-nonnil-params true
+//@   # the version-specific decoder gets the identifier, the two head bytes and everything after them (C07: self-describing)
+//@   before[C07] newMapDataSlabFromDataV0: arg_id == id && arg_h[0] == old(data)[0] && arg_h[1] == old(data)[1] && old(data)[0] / 16 == 0 && (old(data)[1] / 8) % 4 == 1 && (old(data)[1] % 8 == 0 || old(data)[1] % 8 == 3) &&
+//@        len(arg_data) == len(old(data)) - 2 && (forall k :: 0 <= k && k < len(arg_data) ==> arg_data[k] == old(data)[k + 2]) && arg_decMode == decMode && arg_decodeTypeInfo == decodeTypeInfo && arg_decodeStorable == decodeStorable
+//@   before[C07] newMapDataSlabFromDataV1: arg_id == id && arg_h[0] == old(data)[0] && arg_h[1] == old(data)[1] && old(data)[0] / 16 == 1 && (old(data)[1] / 8) % 4 == 1 && (old(data)[1] % 8 == 0 || old(data)[1] % 8 == 3) &&
+//@        len(arg_data) == len(old(data)) - 2 && (forall k :: 0 <= k && k < len(arg_data) ==> arg_data[k] == old(data)[k + 2]) && arg_decMode == decMode && arg_decodeTypeInfo == decodeTypeInfo && arg_decodeStorable == decodeStorable
 //@   modifies heap
 
 //@ func newMapDataSlabFromDataV0  serves C19
@@ -79,8 +100,13 @@ package atree
 //@   option assume-nonnil-params true
 //@   modifies heap
 
-//@ func newMapMetaDataSlabFromData  serves C19
+//@ func newMapMetaDataSlabFromData  serves C07 C19
 //@   option assume-nonnil-params true
+//@   # the version-specific decoder gets the identifier, the two head bytes and everything after them (C07: self-describing)
+//@   before[C07] newMapMetaDataSlabFromDataV0: arg_id == id && arg_h[0] == old(data)[0] && arg_h[1] == old(data)[1] && old(data)[0] / 16 == 0 && (old(data)[1] / 8) % 4 == 1 && old(data)[1] % 8 == 1 &&
+//@        len(arg_data) == len(old(data)) - 2 && (forall k :: 0 <= k && k < len(arg_data) ==> arg_data[k] == old(data)[k + 2]) && arg_decMode == decMode && arg_decodeTypeInfo == decodeTypeInfo
+//@   before[C07] newMapMetaDataSlabFromDataV1: arg_id == id && arg_h[0] == old(data)[0] && arg_h[1] == old(data)[1] && old(data)[0] / 16 == 1 && (old(data)[1] / 8) % 4 == 1 && old(data)[1] % 8 == 1 &&
+//@        len(arg_data) == len(old(data)) - 2 && (forall k :: 0 <= k && k < len(arg_data) ==> arg_data[k] == old(data)[k + 2]) && arg_decMode == decMode && arg_decodeTypeInfo == decodeTypeInfo
 //@   modifies heap
 
 //@ func newMapMetaDataSlabFromDataV0  serves C19
@@ -156,9 +182,10 @@ package atree
 //@   option assume-nonnil-params true
 //@   modifies heap
 
-//@ func newHeadFromData  serves C19
-//@   option assume-nonnil-params true
-//@   modifies heap
+//@ func newHeadFromData(data) (h, err)  serves C07 C19
+//@   ensures[C07] err == nil ==> len(data) == 2 && h[0] == data[0] && h[1] == data[1]
+//@   ensures[C19] len(data) != 2 ==> err != nil
+//@   modifies alloc
 
 
 //@ # ---- content view of the compact-map decoder (C06, C07, C08): the digests of the decoded map are a private copy of the shared ones
